@@ -326,3 +326,20 @@ def modes_at_end(out):
         for num in m.group(1).split(b";"):
             state[int(num)] = 1 if m.group(2) == b"h" else 0
     return state
+
+
+def session_end_event(rd, tag, quit_sent, status, alive):
+    """how a radar process ended, as the pty saw it (for Trace_UI / Trace_Session)"""
+    out = bytes(rd.out)
+    modes = modes_at_end(rd.out)
+    m = re.search(rb"panicked at ([^\r\n]*)", out)
+    return {"ev": "session_end", "tag": tag, "quit_sent": quit_sent, "alive": alive, "exit": status if status is not None else -1,
+            "panic": 1 if b"panicked" in out else 0, "termios_before": termios_summary(rd.termios_before),
+            "termios_after": termios_summary(rd.termios_after()),
+            "modes": {"mouse": max([modes.get(x, 0) for x in (1000, 1002, 1003, 1006, 1015)]), "cursor": modes.get(25, 1),
+                      "altscreen": modes.get(1049, 0)},
+            "panic_text": m.group(1).decode("latin-1")[:120] if m else ""}
+
+
+def hook_events(rd):
+    return [e for e in rd.events() if e.get("ev") != "unparsable"]
